@@ -44,7 +44,10 @@ func runC13(s *scn.Scenario, res *scn.Result) {
 				outs[rep] = r.out
 			}
 			if outs[0] != outs[1] {
+				// the operation is not even a function of a fresh tree: whatever a
+				// history produces cannot equal "the" fresh-tree output
 				zzsim.AddProbe(probeNondetReference, 1)
+				add("H0-reference-stable", "reference-unstable:"+k, k+" applied to two freshly parsed trees of the same source gives different outputs: "+firstDiff(outs[1], outs[0]))
 				continue
 			}
 			ref[k] = outs[0]
@@ -107,6 +110,8 @@ func runC13(s *scn.Scenario, res *scn.Result) {
 					zzsim.AddProbe(probeWriterShort, 1)
 				case "panic":
 					zzsim.AddProbe(probeWriterPanic, 1)
+				case "abort":
+					zzsim.AddProbe(probeVisitorAbort, 1)
 				}
 				// narrow relaxation: only the bytes accepted before the fault are judged
 				if r.prefix > len(want) || r.out[:r.prefix] != want[:r.prefix] {
@@ -149,4 +154,3 @@ func runC13(s *scn.Scenario, res *scn.Result) {
 	snapshotPhase1(res)
 	res.OutcomeHash = strconv.FormatUint(outcome, 16)
 }
-
